@@ -3,7 +3,7 @@ import os
 import termios
 import time
 
-from pexpect import EOF, TIMEOUT
+from pexpect import EOF, TIMEOUT, ExceptionPexpect
 
 from ..core.runner import split_range
 from ..core.watchdog import watchdog, CaseTimeout
@@ -71,7 +71,14 @@ def gen_case(rng, tr):
                 ops.append([kind, pay, asbytes])
         elif tr == 'pty':
             ops.append(rng.choice([['sendcontrol', rng.choice('cdgzCG[@]^_?\\`{|}~')], ['sendeof'], ['sendintr']]))
-    return {'tr': tr, 'enc': enc, 'logs': logs, 'shared': shared, 'ops': ops}
+    late = []
+    if rng.random() < 0.35:
+        # sends after the peer has gone: whatever becomes of them (accepted, or refused with an exception), the log
+        # shows what the caller asked to send (not sendline: PopenSpawn sends the line end in a second step, which a
+        # refused first step never reaches)
+        late = [[rng.choice(['send', 'write']), ''.join(rng.choice(TEXT) for _ in range(rng.randint(1, 10)))]
+                for _ in range(rng.randint(1, 3))]
+    return {'tr': tr, 'enc': enc, 'logs': logs, 'shared': shared, 'ops': ops, 'late': late}
 
 
 def one(case, acc):
@@ -181,6 +188,18 @@ def one(case, acc):
             c.expect(EOF, timeout=10)
         except TIMEOUT:
             raise PeerError('no EOF after the peer closed')
+        if case.get('late'):
+            L.peer_gone()
+            for kind, pay in case['late']:
+                j0 = len(journal)
+                text = api(pay) + (api(os.linesep) if kind == 'sendline' else api(''))
+                try:
+                    getattr(c, kind)(api(pay))
+                    acc.count('late_sends_accepted')
+                except (OSError, ExceptionPexpect, ValueError) as e:
+                    acc.count('late_sends_refused')
+                    acc.seen('late_send_errors', tr + ':' + type(e).__name__)
+                sent(text, j0)
         return judge(case, acc, journal, events, objs, st)
     finally:
         L.cleanup()
